@@ -963,6 +963,10 @@ def diff(roots, dtable):
                 d = mul(fn("cos", args[0]), memo[args[0].id])
             elif name == "cos":
                 d = neg(mul(fn("sin", args[0]), memo[args[0].id]))
+            elif name == "atan":
+                d = div(memo[args[0].id], add(ONE, mul(args[0], args[0])))
+            elif name == "tan":
+                d = mul(add(ONE, mul(t, t)), memo[args[0].id])
             elif name == "pow":
                 x, y = args
                 # d x^y = y x^(y-1) dx + ln(x) x^y dy
